@@ -23,7 +23,7 @@ def run(ctx):
     import regen
     for u, e in regen.regen(['FibreSeq']):
         ctx.broken.append(f'tie T: tools/c2lean2.py cannot translate unit {u}: {e}')
-    changed = [f'{u}: {c}' for u in ('FibreSeq',) for c in regen.signature_changes(u)]
+    changed = [f'{u}: {c}' for u in ('FibreSeq',) for c in regen.signature_changes(u, only=['duetime_cmp'])]
     mods, req = ['Librfn.Props.C02'], list(REQUIRED)
     if changed:
         ctx.broken.append('tie T: the interface of the regenerated duetime_cmp differs from the one Props/C02Tie.lean is stated against (' + '; '.join(changed)[:600] + ')')
